@@ -89,7 +89,11 @@ where
             if result.timed_out()
                 || (duration.as_secs() == 0 && duration.subsec_nanos() < 1_000_000)
             {
-                return None;
+                // an element may have been pushed while we were being woken up
+                return match queue.pop_front() {
+                    Some(Control::Elem(value)) => Some(value),
+                    Some(Control::Unblock) | None => None,
+                };
             }
         }
     }
